@@ -96,7 +96,7 @@ class Gen:
         """a sequence length in [0, min(lim, cap)] biased to boundaries"""
         hi = min(lim, cap)
         r = self.rng.random()
-        cands = [0, 1, hi, max(hi - 1, 0)] + [b + d for b in (8, 16, 32, 64, 256) for d in (-1, 0, 1)]
+        cands = [0, 1, hi, max(hi - 1, 0)] + [b + d for b in (8, 16, 32, 64, 128, 256, 512, 768, 1024) for d in (-1, 0, 1)]
         cands = [c for c in cands if 0 <= c <= hi]
         if r < 0.6:
             return self.rng.choice(cands)
@@ -229,6 +229,14 @@ class Gen:
         # simple value model: list of elems for sequences, str for bits
         cur = v
         mode = r.choice(['mixed', 'grow', 'shrink', 'sawtooth'])
+        if k in ('list', 'bl') and r.random() < 0.35 and len(cur) - 1 >= 2:
+            # boundary dance: pop across the boundary the value may be sitting on, and come back
+            ones = k == 'bl'
+            for o in (['pop'], ['pop'], ['app', '1' if ones else self.val(t[1], 4)], ['app', '1' if ones else self.val(t[1], 4)], ['pop']):
+                if len(ops) >= n:
+                    break
+                ops.append(o)
+                cur = _apply_val(t, cur, o)
         for _ in range(n):
             if p_invalid > 0 and r.random() < p_invalid:
                 op = self.invalid_op(t, cur)
@@ -360,12 +368,82 @@ class Gen:
             return r.choice(c)
         return None
 
+    def invalid_val(self, t, depth=0):
+        """a value that violates a constraint of type t (or None when none is expressible)"""
+        r = self.rng
+        k = kind(t)
+        if t == 'bool':
+            return str(r.choice([2, 3, 255]))
+        if is_basic(t):
+            if t == 'u256' and r.random() < 0.5:
+                return str((1 << 256) + r.randint(0, 5))
+            return str((1 << (8 * UINT_W[t])) + r.choice([0, 1, 1000]))
+        if k == 'bv':
+            n = t[1] + r.choice([-1, 1, 2])
+            return self.bits(max(n, 0)) if n != t[1] and n >= 0 else self.bits(t[1] + 1)
+        if k == 'bl':
+            return self.bits(t[1] + r.choice([1, 2, 9])) if t[1] < 3000 else None
+        if k == 'Bv':
+            return self.bytez(t[1] + r.choice([-1, 1, 32]))
+        if k == 'Bl':
+            return self.bytez(t[1] + r.choice([1, 2, 33])) if t[1] < 3000 else None
+        if k == 'vec':
+            if r.random() < 0.5 or is_basic(t[1]) and t[1] == 'x':
+                n = max(t[2] + r.choice([-1, 1, 2]), 0)
+                if n == t[2]:
+                    n += 1
+                return ['s'] + [self.val(t[1], 4) for _ in range(n)]
+            bad = self.invalid_val(t[1], depth + 1)
+            if bad is None:
+                return None
+            vs = [self.val(t[1], 4) for _ in range(t[2])]
+            vs[r.randrange(t[2])] = bad
+            return ['s'] + vs
+        if k == 'list':
+            if (r.random() < 0.5 and t[2] < 400) or t[2] == 0:
+                return ['s'] + [self.val(t[1], 3) for _ in range(t[2] + r.choice([1, 2]))] if t[2] < 400 else None
+            bad = self.invalid_val(t[1], depth + 1)
+            if bad is None:
+                return None
+            n = max(1, min(t[2], r.choice([1, 2, 5])))
+            vs = [self.val(t[1], 4) for _ in range(n)]
+            vs[r.randrange(n)] = bad
+            return ['s'] + vs
+        if k == 'cont':
+            i = r.randrange(len(t) - 1)
+            bad = self.invalid_val(t[1 + i], depth + 1)
+            if bad is None:
+                return None
+            vs = [self.val(f, 4) for f in t[1:]]
+            vs[i] = bad
+            return ['s'] + vs
+        if k == 'union':
+            opts = t[1:]
+            c = r.random()
+            if c < 0.3:
+                return ['u', len(opts) + r.choice([0, 1, 100]), 'none']
+            sel = r.randrange(len(opts))
+            if opts[sel] == 'none':
+                return ['u', sel, '5']
+            bad = self.invalid_val(opts[sel], depth + 1)
+            return None if bad is None else ['u', sel, bad]
+        return None
+
+    def spellings(self, t):
+        k = kind(t)
+        if is_basic(t) or k in ('cont', 'union'):
+            return ['views', 'py']
+        out = ['views', 'py', 'args', 'gen', 'tuple']
+        if k in ('Bv', 'Bl') or (k in ('vec', 'list') and t[1] == 'u8'):
+            out += ['bytes', 'hex', 'bytes', 'hex']
+        return out
+
     # ---------------------------------------------------------------- byte strings
     def corrupt(self, raw):
         """structure-aware corruption of a valid encoding"""
         r = self.rng
         b = bytearray(raw)
-        m = r.choice(['trunc', 'extend', 'flip', 'offset', 'insert', 'lastbyte', 'zero', 'byte', 'none', 'dup', 'zeroword', 'zeroword'])
+        m = r.choice(['trunc', 'extend', 'flip', 'offset', 'insert', 'lastbyte', 'zero', 'byte', 'none', 'dup', 'zeroword', 'zeroword', 'zerofirst'])
         if m == 'trunc' and b:
             del b[r.randrange(len(b)):]
         elif m == 'extend':
@@ -391,6 +469,8 @@ class Gen:
         elif m == 'byte' and b:
             i = r.randrange(len(b))
             b[i] = r.choice([0, 1, 2, 3, 4, 5, 8, 0xff, 0x80])
+        elif m == 'zerofirst' and len(b) >= 4:
+            b[0:4] = bytes(4)
         elif m == 'zeroword' and len(b) >= 4:
             i = r.randrange(0, len(b) - 3)
             i -= i % 4
